@@ -342,6 +342,11 @@ fn all_iops() -> Vec<IOp> {
     v
 }
 
+thread_local! {
+    /// the two descriptors of the interest scenario are pipe read ends instead of sockets
+    static PIPES: std::cell::Cell<bool> = const { std::cell::Cell::new(false) };
+}
+
 /// what epoll really holds: fd -> (read?, write?)
 fn os_interest(epfd: i32) -> std::collections::BTreeMap<i32, (bool, bool)> {
     let mut m = std::collections::BTreeMap::new();
@@ -359,7 +364,12 @@ fn os_interest(epfd: i32) -> std::collections::BTreeMap<i32, (bool, bool)> {
 
 unsafe fn new_socket_at(num: i32) -> i32 {
     let mut sv = [0; 2];
-    assert_eq!(0, libc::socketpair(libc::AF_UNIX, libc::SOCK_STREAM, 0, sv.as_mut_ptr()));
+    if PIPES.with(std::cell::Cell::get) {
+        // a pipe: [read end, write end]
+        assert_eq!(0, libc::pipe(sv.as_mut_ptr()));
+    } else {
+        assert_eq!(0, libc::socketpair(libc::AF_UNIX, libc::SOCK_STREAM, 0, sv.as_mut_ptr()));
+    }
     if sv[0] != num {
         assert_eq!(num, libc::dup2(sv[0], num));
         libc::close(sv[0]);
@@ -445,6 +455,7 @@ fn run_interest(lp: &mut SyncLoop, hist: &[IOp], base: i32) -> Result<(), (Strin
 struct ICase {
     prefix: Vec<IOp>,
     depth: usize,
+    pipes: bool,
 }
 
 fn exec_interest(c: &ICase, em: &mut Emitter) {
@@ -452,7 +463,9 @@ fn exec_interest(c: &ICase, em: &mut Emitter) {
     open_coroutine_core::verif::clock_enable(T0);
     let mut lp = SyncLoop::new("c21-loop", 128 * 1024, 0, 1, 0).expect("loop");
     lp.enter();
-    let ops = all_iops();
+    PIPES.with(|p| p.set(c.pipes));
+    // (shutdown is a socket operation)
+    let ops: Vec<IOp> = all_iops().into_iter().filter(|o| !(c.pipes && matches!(o, IOp::Shutdown(..)))).collect();
     let mut frontier = std::collections::VecDeque::from([c.prefix.clone()]);
     let mut n = 0u64;
     let mut sigs: Vec<String> = Vec::new();
@@ -473,7 +486,7 @@ fn exec_interest(c: &ICase, em: &mut Emitter) {
             Err((clause, detail)) => {
                 if !sigs.contains(&clause) {
                     sigs.push(clause.clone());
-                    em.emit(json!({"t":"viol","clause":clause,"detail":detail,"history":h.iter().map(|o| o.to_json()).collect::<Vec<_>>()}));
+                    em.emit(json!({"t":"viol","clause":clause,"detail":detail,"history":h.iter().map(|o| o.to_json()).collect::<Vec<_>>(),"pipes":c.pipes}));
                 }
             }
         }
@@ -500,11 +513,15 @@ pub fn run(scen: &str, tier: &str, rep: &mut Report) -> bool {
         }
         "ep.interest" => {
             let depth = if tier == "thorough" { 5 } else { 4 };
-            let mut cases = vec![ICase { prefix: vec![], depth: 0 }];
+            let mut cases = vec![ICase { prefix: vec![], depth: 0, pipes: false }];
             for op in all_iops() {
-                cases.push(ICase { prefix: vec![op], depth });
+                cases.push(ICase { prefix: vec![op], depth, pipes: false });
+                // the same histories over two pipe read ends (descriptors that are not sockets)
+                if !matches!(op, IOp::Shutdown(..)) {
+                    cases.push(ICase { prefix: vec![op], depth: depth - 1, pipes: true });
+                }
             }
-            rep.bounds = json!({"descriptors": 2, "depth": depth, "ops": all_iops().iter().take(10).map(|o| o.to_json()).collect::<Vec<_>>(), "observation": "/proc/self/fdinfo/<epoll fd> after every operation", "dedup": "none"});
+            rep.bounds = json!({"descriptors": 2, "depth": depth, "ops": all_iops().iter().take(10).map(|o| o.to_json()).collect::<Vec<_>>(), "observation": "/proc/self/fdinfo/<epoll fd> after every operation", "dedup": "none", "descriptor_kinds": "two sockets (full depth); two pipe read ends (depth - 1, without shutdown)"});
             let budget = Budget::secs(if tier == "thorough" { 1500 } else { 50 });
             let mut total = 0u64;
             sweep(&cases, 1, rep, &cfg, &budget, exec_interest, |_, res: &ChildResult, rep| {
@@ -514,7 +531,8 @@ pub fn run(scen: &str, tier: &str, rep: &mut Report) -> bool {
                     return;
                 }
                 for v in res.find("viol") {
-                    rep.violation(&format!("ep.interest/{}", v["clause"].as_str().unwrap()), format!("history {}: {}", v["history"], v["detail"].as_str().unwrap()), json!({"engine":"seqx","scenario":"ep.interest","history":v["history"]}));
+                    let kind = if v["pipes"] == true { ":pipe" } else { "" };
+                    rep.violation(&format!("ep.interest/{}{kind}", v["clause"].as_str().unwrap()), format!("history {} on {}: {}", v["history"], if v["pipes"] == true { "two pipe read ends" } else { "two sockets" }, v["detail"].as_str().unwrap()), json!({"engine":"seqx","scenario":"ep.interest","history":v["history"],"pipes":v["pipes"]}));
                 }
                 if let Some(d) = res.last("done") {
                     total += d["n"].as_u64().unwrap_or(0);
@@ -540,6 +558,7 @@ pub fn replay(v: &Value, em: &mut Emitter) -> bool {
     }
     if let Some(h) = v.get("history").and_then(Value::as_array) {
         let h: Vec<IOp> = h.iter().filter_map(IOp::from_json).collect();
+        PIPES.with(|p| p.set(v.get("pipes").and_then(Value::as_bool).unwrap_or(false)));
         open_coroutine_core::verif::clock_enable(T0);
         let mut lp = SyncLoop::new("c21-loop", 128 * 1024, 0, 1, 0).expect("loop");
         lp.enter();
